@@ -36,6 +36,8 @@ def explore(pattern, mode, sort, optimistic=False, timeout_ms=20000):
     for ch in pattern:
         if ch == 'x':
             xs.append(sort('x%d' % len(xs)))
+        elif ch == 'i':
+            xs.append(z3.Int('x%d' % len(xs)))          # an int item inside a column of another sort
     ex = Explorer(timeout_ms=timeout_ms, max_paths=20000)
     if optimistic:
         ex.feasible = lambda pc: True
@@ -48,7 +50,7 @@ def explore(pattern, mode, sort, optimistic=False, timeout_ms=20000):
 
     def thunk(st):
         it = iter(xs)
-        items = [{'x': (next(it) if ch == 'x' else None)} for ch in pattern]
+        items = [{'x': (next(it) if ch in 'xi' else None)} for ch in pattern]
         data = {'mapping': True}
         selfo = Obj(items=items, data=data, statistic_names=SV.statistic_names)
         interp.call(STAT, [selfo, 'x', 'total-x'], st)
@@ -235,7 +237,7 @@ def real_stats(items_vals):
 def replay_real(cex):
     pattern, vals = cex['pattern'], cex['values']
     it = iter(vals)
-    items = [(next(it) if ch == 'x' else None) for ch in pattern]
+    items = [(next(it) if ch in 'xi' else None) for ch in pattern]
     try:
         got = real_stats(items)
     except Exception as e:
@@ -596,10 +598,10 @@ for _n in range(1, NR + 1):
                               engine='E2 astsmt (z3 %s)' % ('Real, nlsat' if _kind == 'real' else 'Int'), data='%d items, each any mathematical %s' % (_n, _kind),
                               selectors='mapping items, all numeric', bounds='n = %d items; values unbounded' % _n,
                               outside='n > %d; IEEE rounding (see the fp obligations)' % NR, stubs='sqrt(x) modelled as fresh r >= 0 with r*r == x'))
-for _pat in ('xNx', 'Nxx', 'xxN', 'NxNxN') + tier((), ('xNxx', 'xxNxN')):
+for _pat in ('xNx', 'Nxx', 'xxN', 'NxNxN', 'xi', 'ix', 'xix', 'ixix') + tier((), ('xNxx', 'xxNxN', 'iixx', 'xiNi')):
     OBLIGATIONS.append(Ob('e2_real_%s' % _pat, make_real(_pat, 'real'), kind='custom', timeout=tier(200, 900), replay=replay_real, twin=False,
                           engine='E2 astsmt (z3 Real, nlsat)', data='numeric items (any real) interleaved with None items: pattern %s' % _pat,
-                          selectors='None positions %s' % _pat, bounds='pattern %s' % _pat, stubs='sqrt(x) modelled as fresh r >= 0 with r*r == x'))
+                          selectors='pattern %s (x = real item, i = int item, N = None)' % _pat, bounds='pattern %s' % _pat, stubs='sqrt(x) modelled as fresh r >= 0 with r*r == x'))
 for _n in tier((2, 3), (2, 3, 4)):
     OBLIGATIONS.append(Ob('fp_sqrt_n%d' % _n, make_fp(_n, 'sqrt'), kind='custom', timeout=tier(280, 1500), replay=replay_fp, twin=False,
                           engine='E2 astsmt (Float64 RNE) + cvc5 binary', data='%d IEEE-754 doubles, finite, |x| <= 1e6' % _n,
